@@ -154,3 +154,13 @@ package board
 //@   hyp validPos(p) && pseudo(p, m)
 //@   concl [light]   lightPos(p)
 //@   concl [movable] movable(p, m)
+//@
+//@ # ---- C05: the pseudo-legality test accepts exactly the rule-defined pseudo-legal encodings
+//@ func (*Board).IsPseudoLegal
+//@   props C05
+//@   requires repOK(b) && validPos(pos(b)) && m < 1<<15
+//@   use repInstance(b, m.From())
+//@   use repInstance(b, m.To())
+//@   ensures [iff] result == pseudo(pos(b), uint16(m))
+//@   modifies nothing
+//@   nopanic
